@@ -95,27 +95,33 @@ Theorem C14_one_action_per_entry : forall running unknown qupd e, (List.length (
 Proof. exact one_action_per_entry. Qed.
 Print Assumptions C14_one_action_per_entry.
 
-(* F21 (fixed in /repo dbd540e): requeue re-checks the queue when its goroutine runs; nothing is unlocked
-   that queue.Get does not show Locked at that moment *)
-Theorem C14_requeue_rechecks_queue : forall acts now u, In u (sync_unlocks acts now) -> nlook u now = Some Locked.
+(* F21 (fixed in /repo dbd540e + c30ecc5): a requeue goroutine unlocks only a container that queue.Get shows
+   Locked when it runs AND whose reason still holds then: pool.Running() reports an exited crunch-run, or
+   reports nothing and the priority is 0 *)
+Theorem C14_requeue_rechecks_queue_and_reason : forall acts now run_now u,
+  In u (sync_unlocks acts now run_now) ->
+  (exists p, nlook u now = Some (Locked, p)) /\
+  ((exists t, rlook u run_now = Some t /\ t <> 0) \/ (rlook u run_now = None /\ exists st p, nlook u now = Some (st, p) /\ p <= 0)).
 Proof. exact requeue_rechecks. Qed.
-Print Assumptions C14_requeue_rechecks_queue.
+Print Assumptions C14_requeue_rechecks_queue_and_reason.
 
-(* residual window F21b (still in /repo): only the state is re-checked, not the reason; a requeue decided on
-   an older snapshot unlocks a container that was meanwhile requeued, forgotten by the pool and locked again.
-   The end-to-end judge gives exactly that pattern its own result bit (known_f21b below). *)
-Theorem C14_requeue_reason_not_rechecked_refuted :
-  ~ (forall acts now (running_now : rmap) u,
-       In u (sync_unlocks acts now) -> exists t, rlook u running_now = Some t /\ t <> 0).
-Proof. exact requeue_reason_not_rechecked_refuted. Qed.
-Print Assumptions C14_requeue_reason_not_rechecked_refuted.
+(* a container that was re-locked after its old process had been forgotten is left alone ... *)
+Theorem C14_requeue_relocked_left_alone : sync_unlocks [ARequeue 7] [(7%N, (Locked, 5))] [] = [].
+Proof. exact requeue_relocked_left_alone. Qed.
+Print Assumptions C14_requeue_relocked_left_alone.
+
+(* ... regression witness about the OLD model: before those commits the decision was executed as it was *)
+Theorem C14_requeue_old_model_regression_witness : sync_unlocks_old [ARequeue 7] = [7%N].
+Proof. exact requeue_old_model_unlocked_relocked. Qed.
+Print Assumptions C14_requeue_old_model_regression_witness.
 
 (* the boolean specification of the sync stage is the Prop-level one, and the model meets it *)
 Theorem C14_sync_spec_reflects : forall c, C14_sync_run.spec_b c = true <-> SyncSpec c.
 Proof. exact sync_spec_reflects. Qed.
 Print Assumptions C14_sync_spec_reflects.
 
-Theorem C14_sync_meets_spec : forall ents running unknown qupd latch now, SyncSpec (model_obs ents running unknown qupd latch now).
+Theorem C14_sync_meets_spec : forall ents running unknown qupd latch now run_now,
+  SyncSpec (model_obs ents running unknown qupd latch now run_now).
 Proof. exact sync_meets_spec. Qed.
 Print Assumptions C14_sync_meets_spec.
 
@@ -219,22 +225,11 @@ Theorem C14_e2e_start_ok_spec : forall s t vm u b,
 Proof. exact start_ok_spec. Qed.
 Print Assumptions C14_e2e_start_ok_spec.
 
-(* the narrow trigger predicate of the residual finding F21b (stale requeue after a re-lock) excuses nothing
-   else: no double start, no booting VM, and the dispatcher's own calls on u must end Unlock-Lock-Unlock with
-   the start arriving within 250 ms of that Lock *)
-Theorem C14_e2e_known_f21b_narrow : forall s t vm u b,
-  known_f21b s t vm u b = true ->
-  ~ In u (map snd (j_live s)) /\ ~ In u (map snd (j_infl s)) /\ b = false /\ ~ In u (j_locked s) /\
-  exists t1 t2 t3 rest, hist_of u (j_hist s) = (false, t3) :: (true, t2) :: (false, t1) :: rest /\ t <= t2 + f21b_window.
-Proof. exact known_f21b_narrow. Qed.
-Print Assumptions C14_e2e_known_f21b_narrow.
-
-Theorem C14_e2e_f21b_pattern_example :
-  known_hits j0 [XLock 1 7; XUnlock 50 7; XLock 52 7; XUnlock 53 7; XStartBegin 54 1 7 false] = true /\
-  judge j0 [XLock 1 7; XUnlock 50 7; XLock 52 7; XUnlock 53 7; XStartBegin 54 1 7 false] = true /\
-  judge j0 [XLock 1 7; XUnlock 53 7; XStartBegin 54 1 7 false] = false.
-Proof. exact judge_flags_f21b_pattern. Qed.
-Print Assumptions C14_e2e_f21b_pattern_example.
+(* the pattern of the former finding F21 is rejected: no tolerance for a start after the dispatcher's own Unlock *)
+Theorem C14_e2e_judge_rejects_f21_pattern :
+  judge j0 [XLock 1 7; XUnlock 50 7; XLock 52 7; XUnlock 53 7; XStartBegin 54 1 7 false] = false.
+Proof. exact judge_rejects_f21_pattern. Qed.
+Print Assumptions C14_e2e_judge_rejects_f21_pattern.
 
 Theorem C14_e2e_judge_rejects_double_start :
   judge j0 [XLock 1 7; XStartBegin 2 1 7 false; XStartEnd 3 1 7 true; XStartBegin 12 2 7 false] = false.
